@@ -135,7 +135,8 @@ impl Parser {
                             let name = tp.path.segments.last().unwrap().ident.to_string();
                             for ii in &i.items {
                                 if let syn::ImplItem::Type(t) = ii {
-                                    self.impls.push((name.clone(), t.ty.clone(), module.to_vec()));
+                                    self.impls
+                                        .push((name.clone(), t.ty.clone(), module.to_vec()));
                                 }
                             }
                         }
@@ -194,7 +195,11 @@ impl Parser {
         loop {
             let mut m = b.clone();
             m.extend(mods.iter().cloned());
-            if let Some(i) = self.index.iter().position(|(dm, dn)| *dm == m && dn == name) {
+            if let Some(i) = self
+                .index
+                .iter()
+                .position(|(dm, dn)| *dm == m && dn == name)
+            {
                 return Some(i);
             }
             if b.is_empty() {
@@ -227,7 +232,9 @@ impl Parser {
     fn ty(&self, t: &syn::Type, ctx: Option<usize>, module: &[String]) -> Ty {
         let rec = |t: &syn::Type| Box::new(self.ty(t, ctx, module));
         match t {
-            syn::Type::Tuple(tt) => Ty::Tuple(tt.elems.iter().map(|e| self.ty(e, ctx, module)).collect()),
+            syn::Type::Tuple(tt) => {
+                Ty::Tuple(tt.elems.iter().map(|e| self.ty(e, ctx, module)).collect())
+            }
             syn::Type::Array(a) => {
                 let syn::Expr::Lit(syn::ExprLit {
                     lit: syn::Lit::Int(n),
@@ -241,7 +248,12 @@ impl Parser {
             syn::Type::Slice(s) => Ty::Vec(rec(&s.elem)),
             syn::Type::Paren(p) => self.ty(&p.elem, ctx, module),
             syn::Type::Path(p) => {
-                let segs: Vec<String> = p.path.segments.iter().map(|s| s.ident.to_string()).collect();
+                let segs: Vec<String> = p
+                    .path
+                    .segments
+                    .iter()
+                    .map(|s| s.ident.to_string())
+                    .collect();
                 let last = p.path.segments.last().unwrap();
                 let args: Vec<&syn::Type> = match &last.arguments {
                     syn::PathArguments::AngleBracketed(a) => a
@@ -341,8 +353,10 @@ pub fn parse_corpus(src: &str, prefix: &[&str]) -> (Program, Vec<(String, Ty)>) 
     for it in &file.items {
         if let syn::Item::Macro(m) = it {
             if m.mac.path.is_ident("roots") {
-                let parser = syn::punctuated::Punctuated::<syn::Type, syn::Token![,]>::parse_terminated;
-                let tys = syn::parse::Parser::parse2(parser, m.mac.tokens.clone()).expect("roots list");
+                let parser =
+                    syn::punctuated::Punctuated::<syn::Type, syn::Token![,]>::parse_terminated;
+                let tys =
+                    syn::parse::Parser::parse2(parser, m.mac.tokens.clone()).expect("roots list");
                 for t in tys {
                     let name = quote::quote!(#t).to_string();
                     roots.push((name, p.ty(&t, None, &[])));
@@ -392,7 +406,11 @@ pub struct Conformance {
 
 fn constructors_of(ty: &Ty, out: &mut BTreeSet<String>) {
     let name = format!("{ty:?}");
-    let head = name.split(|c: char| !c.is_alphanumeric()).next().unwrap_or("").to_string();
+    let head = name
+        .split(|c: char| !c.is_alphanumeric())
+        .next()
+        .unwrap_or("")
+        .to_string();
     out.insert(head);
     match ty {
         Ty::Named(_, a) | Ty::Tuple(a) => a.iter().for_each(|t| constructors_of(t, out)),
@@ -426,7 +444,11 @@ pub fn check_conformance() -> Result<Conformance, String> {
     let (prog, roots) = parse_corpus(DEFS_SRC, &["vcore", "corpus", "defs"]);
     let real = defs::real_registries();
     if real.len() != roots.len() + 1 {
-        return Err(format!("root count mismatch: real {} vs parsed {}", real.len(), roots.len()));
+        return Err(format!(
+            "root count mismatch: real {} vs parsed {}",
+            real.len(),
+            roots.len()
+        ));
     }
     let mut c = Conformance {
         defs: prog.defs.len(),
@@ -448,7 +470,10 @@ pub fn check_conformance() -> Result<Conformance, String> {
     for (_, r) in &roots {
         constructors_of(r, &mut c.constructors);
     }
-    let mut cases: Vec<(String, Vec<Ty>)> = roots.iter().map(|(n, t)| (n.clone(), vec![t.clone()])).collect();
+    let mut cases: Vec<(String, Vec<Ty>)> = roots
+        .iter()
+        .map(|(n, t)| (n.clone(), vec![t.clone()]))
+        .collect();
     cases.push(("*".into(), roots.iter().map(|(_, t)| t.clone()).collect()));
     for ((name, tys), (real_name, real_reg)) in cases.iter().zip(real.iter()) {
         let mut p = prog.clone();
